@@ -9,4 +9,6 @@ CONSTANTS Names <- NamesAB Depth = 1 Vals <- None Sep = 46 Design = "list" Base 
 CONSTRAINT BoundPT
 VIEW ViewP
 ACTION_CONSTRAINT EmitP
+INVARIANTS PathRefines
+PROPERTIES PathProp PrintProp
 CHECK_DEADLOCK FALSE
